@@ -220,7 +220,7 @@ func (t *Table) lookupUnlocked(ip net.IP) *Route {
 		}
 
 		// Calculate prefix length
-		ones, _ := first.Network.Mask.Size()
+		ones := prefixBits(first.Network)
 		if ones > bestPrefixLen {
 			bestPrefixLen = ones
 			bestRoute = first // First is best due to sorting by metric
@@ -231,6 +231,17 @@ func (t *Table) lookupUnlocked(ip net.IP) *Route {
 		return bestRoute.Clone()
 	}
 	return nil
+}
+
+// prefixBits returns the prefix length of a network within the address family it is
+// matched in. An IPv4-mapped IPv6 prefix (::ffff:a.b.c.d/96+n) is keyed and matched as
+// the IPv4 prefix a.b.c.d/n, so it must be ranked as /n and not as /96+n.
+func prefixBits(network *net.IPNet) int {
+	ones, bits := network.Mask.Size()
+	if bits == 8*net.IPv6len && ones >= 96 && network.IP.To4() != nil {
+		return ones - 96
+	}
+	return ones
 }
 
 // LookupAll returns all routes for an IP address, sorted by prefix length then metric.
@@ -257,8 +268,8 @@ func (t *Table) LookupAll(ip net.IP) []*Route {
 
 	// Sort by prefix length (longest first), then by metric
 	sort.Slice(matches, func(i, j int) bool {
-		onesI, _ := matches[i].Network.Mask.Size()
-		onesJ, _ := matches[j].Network.Mask.Size()
+		onesI := prefixBits(matches[i].Network)
+		onesJ := prefixBits(matches[j].Network)
 		if onesI != onesJ {
 			return onesI > onesJ
 		}
